@@ -498,4 +498,166 @@ theorem hsEnc_meta_traffic (H : Crypto.Prims) (P : Prims) (L : SealLaws P) (kl :
     congr 1
     by_cases hdd : d' = srv <;> simp [hdd]
 
+/-- what `-a` makes one record of a TLS ≤ 1.2 script contribute to the exported stream of its direction: clear-text
+    handshake and ChangeCipherSpec records verbatim; a protected handshake record as its plaintext followed by the
+    record as captured; application data as plaintext only -/
+def metaOf12 (raw : Bytes) : DirEv → Bytes
+  | .clear _ => raw
+  | .ccs => raw
+  | .enc typ pt _ => if typ = 23 then pt else pt ++ raw
+  | .hs13 _ _ => []
+
+def metaStream12 (P : Prims) (L : SealLaws P) (cls : CipherClass) (ver : Bytes) : SDir → List DirEv → Bytes
+  | _, [] => []
+  | sd, e :: r => metaOf12 (evRaw P L cls ver sd e) e ++ metaStream12 P L cls ver (evNext P L cls ver sd e) r
+
+theorem dirInv12_of_cc {s s' : Session.St Dec} {d : Bool} {rem : List DirEv} (h : ccOf s' d = ccOf s d)
+    (hi : DirInv12 s d rem) : DirInv12 s' d rem := by
+  unfold DirInv12 at hi ⊢; rw [h]; exact hi
+
+theorem step12m (H : Crypto.Prims) (P : Prims) (L : SealLaws P) (kl : List Keylog.Key) (cls : CipherClass)
+    (h13 : cls.is13 = false) (macLen : Nat) (ver : Bytes) (hv : ver.length = 2) (x : Snd) (s : Session.St Dec)
+    (hs : Ready cls macLen x s) (d : Bool) (e : DirEv) (rem : List DirEv) (car : List Nat)
+    (hinv : DirInv12 s d (e :: rem)) (hok : EvOk1 cls macLen e) (hq : x.c.seq < seqLimit ∧ x.s.seq < seqLimit) :
+    let s' := Session.handleRecord (Pipeline.ops H P kl) true s ⟨evRaw P L cls ver (x.get d) e, car⟩ d
+    let x' := x.set d (evNext P L cls ver (x.get d) e)
+    Ready cls macLen x' s' ∧ DirInv12 s' d rem ∧ ccOf s' (!d) = ccOf s (!d) ∧
+    (∀ d', dirPlain d' s'.traffic = dirPlain d' s.traffic ++
+      (if d' = d then metaOf12 (evRaw P L cls ver (x.get d) e) e else [])) ∧
+    x'.c.seq ≤ max x.c.seq x.s.seq + 1 ∧ x'.s.seq ≤ max x.c.seq x.s.seq + 1 := by
+  intro s' x'
+  cases e with
+  | clear b =>
+    rcases hinv with ⟨hcc, cl, rest, hl, hcl, hrest⟩ | ⟨_, hall⟩
+    · cases cl with
+      | nil => simp at hl
+      | cons b' cl' =>
+        simp only [List.map_cons, List.cons_append, List.cons.injEq, DirEv.clear.injEq] at hl
+        obtain ⟨rfl, hrem⟩ := hl
+        have hpush : s' = s.push ⟨some (record 22 ver b), ⟨record 22 ver b, car⟩, d, false⟩ :=
+          handle_clear_meta _ s ver b hv car d (hcl b (by simp)) (Or.inr hcc)
+        have hx : x' = x := set_get x d
+        rw [hpush, hx]
+        refine ⟨hs.of_eq rfl rfl rfl, Or.inl ⟨hcc, cl', rest, hrem, fun b' hb' => hcl b' (by simp [hb']), hrest⟩, rfl, ?_,
+          by omega, by omega⟩
+        intro d'
+        exact dirPlain_push d' d s.traffic _ _ false
+    · obtain ⟨_, _, _, h, _⟩ := hall _ (List.mem_cons_self ..); cases h
+  | ccs =>
+    obtain ⟨a1, a2, a3, a4, a5, _, _⟩ := handleRecord_ccs (Pipeline.ops H P kl) true s
+      ⟨record 20 ver [1], car⟩ d (record_typ 20 ver [1] car)
+    have a7 := handle_ccs_meta (Pipeline.ops H P kl) s ⟨record 20 ver [1], car⟩ d (record_typ 20 ver [1] car)
+    have hx : x' = x := set_get x d
+    rw [hx]
+    rcases hinv with ⟨hcc, cl, rest, hl, hcl, hrest⟩ | ⟨_, hall⟩
+    · cases cl with
+      | cons b' cl' => simp at hl
+      | nil =>
+        simp only [List.map_nil, List.nil_append, List.cons.injEq, true_and] at hl
+        subst hl
+        refine ⟨hs.of_eq a1 a2 a3, Or.inr ⟨a4, hrest⟩, a5, ?_, by omega, by omega⟩
+        intro d'
+        show dirPlain d' (Session.handleRecord _ true s ⟨record 20 ver [1], car⟩ d).traffic = _
+        rw [a7]; exact dirPlain_push d' d s.traffic _ _ false
+    · obtain ⟨_, _, _, h, _⟩ := hall _ (List.mem_cons_self ..); cases h
+  | enc typ pt f =>
+    rcases hinv with ⟨_, cl, rest, hl, _, _⟩ | ⟨hcc, hall⟩
+    · cases cl <;> simp at hl
+    · obtain ⟨typ', pt', f', he, htyp⟩ := hall _ (List.mem_cons_self ..)
+      cases he
+      have hall' : AllEnc12 rem := fun e he => hall e (List.mem_cons_of_mem _ he)
+      rcases htyp with rfl | rfl
+      · obtain ⟨_, _, b3, b4, b5, b6, b7⟩ := handleRecord_hsEnc H P L kl cls h13 macLen ver hv x s hs d hcc pt f hok hq true car
+        refine ⟨b3, Or.inr ⟨(ccOf_of_flags b4 b5 d).trans hcc, hall'⟩, ccOf_of_flags b4 b5 _, ?_, b6, b7⟩
+        intro d'
+        have := hsEnc_meta_traffic H P L kl cls h13 macLen ver hv x s hs d hcc pt f hok hq car d'
+        show dirPlain d' (Session.handleRecord _ true s ⟨(protect P L cls ver (x.get d) 22 pt f).2, car⟩ d).traffic = _
+        rw [this]; simp [metaOf12, evRaw]
+      · obtain ⟨c1, c2, c3, c4⟩ := handleRecord_app H P L kl cls macLen ver hv x s hs d pt f hok hq true car
+        have htyp : (⟨(protect P L cls ver (x.get d) 23 pt f).2, car⟩ : Session.Rec).typ = some 0x17 :=
+          protect_head_legacy P L cls h13 ver _ 23 pt f
+        obtain ⟨f1, f2⟩ := handle_app_flags (Pipeline.ops H P kl) true s _ d htyp
+        refine ⟨c2, Or.inr ⟨(ccOf_of_flags f1 f2 d).trans hcc, hall'⟩, ccOf_of_flags f1 f2 _, ?_, c3, c4⟩
+        intro d'
+        show dirPlain d' (Session.handleRecord _ true s ⟨(protect P L cls ver (x.get d) 23 pt f).2, car⟩ d).traffic = _
+        rw [c1, dirPlain_push]
+        simp [metaOf12]
+  | hs13 ms f =>
+    rcases hinv with ⟨_, cl, rest, hl, _, _⟩ | ⟨_, hall⟩
+    · cases cl <;> simp at hl
+    · obtain ⟨_, _, _, h, _⟩ := hall _ (List.mem_cons_self ..); cases h
+
+/-- TLS ≤ 1.2 after the ServerHello: `Session` over ANY interleaving of the two sides' remaining records (each side's
+    own order kept) exports with `-a`, per direction, exactly `metaStream12` -/
+theorem run_merge12m (H : Crypto.Prims) (P : Prims) (L : SealLaws P) (kl : List Keylog.Key) (cls : CipherClass)
+    (h13 : cls.is13 = false) (macLen : Nat) (ver : Bytes) (hv : ver.length = 2) (M : List (Session.Rec × Bool)) :
+    ∀ (x : Snd) (s : Session.St Dec) (rem : Bool → List DirEv), Ready cls macLen x s →
+      (∀ d, DirInv12 s d (rem d)) → (∀ d, ∀ e ∈ rem d, EvOk1 cls macLen e) →
+      (∀ d, (M.filter fun q => q.2 == d).map (·.1.raw) = sendDir P L cls ver (x.get d) (rem d)) →
+      max x.c.seq x.s.seq + M.length ≤ seqLimit →
+      ∀ d, dirPlain d (Session.run (Pipeline.ops H P kl) true s M).traffic
+        = dirPlain d s.traffic ++ metaStream12 P L cls ver (x.get d) (rem d) := by
+  induction M with
+  | nil =>
+    intro x s rem _ _ _ hfil _ d
+    have := sendDir_eq_nil P L cls ver _ _ (hfil d).symm
+    simp [Session.run, this, metaStream12]
+  | cons q M' ih =>
+    intro x s rem hs hinv hok hfil hq d
+    obtain ⟨r, d0⟩ := q
+    have h0 := hfil d0
+    rw [filter_dir_cons_same, List.map_cons] at h0
+    cases hrem : rem d0 with
+    | nil => rw [hrem] at h0; cases h0
+    | cons e rest =>
+      rw [hrem, sendDir_cons] at h0
+      simp only [List.cons.injEq] at h0
+      obtain ⟨hraw, htail⟩ := h0
+      have hr : r = ⟨evRaw P L cls ver (x.get d0) e, r.carriers⟩ := by
+        have hraw' : r.raw = evRaw P L cls ver (x.get d0) e := hraw
+        rw [← hraw']
+      simp only [List.length_cons] at hq
+      obtain ⟨g1, g2, g3, g4, g5, g6⟩ := step12m H P L kl cls h13 macLen ver hv x s hs d0 e rest r.carriers
+        (hrem ▸ hinv d0) (hok d0 e (by rw [hrem]; simp)) (by omega)
+      rw [← hr] at g1 g2 g3 g4
+      have hinv' : ∀ d', DirInv12 (Session.handleRecord (Pipeline.ops H P kl) true s r d0) d' (upd rem d0 rest d') := by
+        intro d'
+        by_cases hd : d' = d0
+        · subst hd; simpa [upd] using g2
+        · have hdn : d' = !d0 := bool_ne d' d0 hd
+          have hcc : ccOf (Session.handleRecord (Pipeline.ops H P kl) true s r d0) d' = ccOf s d' := by
+            rw [hdn]; exact g3
+          simp only [upd, hd, if_false]
+          unfold DirInv12
+          rw [hcc]
+          exact hinv d'
+      have hok' : ∀ d', ∀ e' ∈ upd rem d0 rest d', EvOk1 cls macLen e' := by
+        intro d' e' he'
+        by_cases hd : d' = d0
+        · subst hd
+          simp only [upd, if_true] at he'
+          exact hok d' e' (by rw [hrem]; simp [he'])
+        · simp only [upd, hd, if_false] at he'
+          exact hok d' e' he'
+      have hfil' : ∀ d', (M'.filter fun q => q.2 == d').map (·.1.raw)
+          = sendDir P L cls ver ((x.set d0 (evNext P L cls ver (x.get d0) e)).get d') (upd rem d0 rest d') := by
+        intro d'
+        by_cases hd : d' = d0
+        · subst hd
+          rw [Lemmas.RecLayer.sget_set]
+          simpa [upd] using htail
+        · rw [sget_set_ne _ _ _ _ hd]
+          simp only [upd, hd, if_false]
+          rw [← hfil d', filter_dir_cons_other _ _ _ _ hd]
+      have := ih _ _ (upd rem d0 rest) g1 hinv' hok' hfil' (by omega) d
+      simp only [Session.run, List.foldl_cons] at this ⊢
+      rw [this, g4 d]
+      by_cases hd : d = d0
+      · subst hd
+        simp only [upd, if_true, hrem, if_true, Lemmas.RecLayer.sget_set, metaStream12]
+        rw [List.append_assoc]
+      · rw [sget_set_ne _ _ _ _ hd]
+        simp [upd, hd]
+
+
 end TLX.Lemmas.Capstone2
